@@ -158,30 +158,61 @@ def residual (nan : α → Bool) (params : List (Option α)) (mean ini : Option 
 
 An argument left at its Python default `None` is the outer `none`; an explicit NaN is `some none`. -/
 
+/-- the mean a call stands for: the argument when given, else the wrapper's fallback
+(`0.` in `armodel_sim`, `numpy.nanmean(inputs)` in `armodel_residual`) -/
+def resolveMean (fallback : Option α) (meanArg : Option (Option α)) : Option α :=
+  match meanArg with
+  | none => fallback
+  | some m => m
+
+/-- `if sim_ini is None: sim_ini = sim_mean` -/
+def resolveIni (mean : Option α) (iniArg : Option (Option α)) : Option α :=
+  match iniArg with
+  | none => mean
+  | some i => i
+
 /-- `armodel_sim(params, innov, sim_mean=0., sim_ini=None)`: `sim_ini` defaults to `sim_mean` -/
 def pySim (nan : α → Bool) (params : List (Option α)) (innov : List (Option α))
     (meanArg : Option (Option α)) (iniArg : Option (Option α)) : Except Err (List α) :=
-  let mean : Option α := match meanArg with
-    | none => some 0
-    | some m => m
-  let ini : Option α := match iniArg with
-    | none => mean
-    | some i => i
-  sim nan params mean ini innov
+  let mean := resolveMean (some 0) meanArg
+  sim nan params mean (resolveIni mean iniArg) innov
 
 /-- `armodel_residual(params, inputs, sim_mean=None, sim_ini=None)`: `sim_mean` defaults to
-`numpy.nanmean(inputs)` (external: its value `nanmean` is a parameter of the model),
+`numpy.nanmean(inputs)` (its value `nanmean` is a parameter here, see `pyResidualD`),
 `sim_ini` defaults to the mean actually used -/
 def pyResidual (nan : α → Bool) (params : List (Option α)) (inputs : List (Option α))
     (nanmean : Option α) (meanArg : Option (Option α)) (iniArg : Option (Option α)) :
     Except Err (List α) :=
-  let mean : Option α := match meanArg with
-    | none => nanmean
-    | some m => m
-  let ini : Option α := match iniArg with
-    | none => mean
-    | some i => i
-  residual nan params mean ini inputs
+  let mean := resolveMean nanmean meanArg
+  residual nan params mean (resolveIni mean iniArg) inputs
+
+end
+
+section
+variable {α : Type} [Add α] [Sub α] [Mul α] [Div α] [OfNat α 0] [NatCast α]
+
+/-- sum of the present values, in order, from 0 -/
+def dataSum (xs : List (Option α)) : α :=
+  xs.foldl (fun acc x => match x with
+    | none => acc
+    | some v => acc + v) 0
+
+/-- number of present values -/
+def dataCount (xs : List (Option α)) : Nat := (xs.filter Option.isSome).length
+
+/-- `numpy.nanmean(inputs)`: mean of the present values; NaN (`none`) when there is none (empty or
+all-missing series), or when the quotient itself is NaN (`inf-inf` at `Float`).  numpy sums pairwise,
+this sums in order: same value in exact arithmetic, a few ulp apart at `Float`. -/
+def dataMean (nan : α → Bool) (xs : List (Option α)) : Option α :=
+  if dataCount xs = 0 then none
+  else
+    let v := dataSum xs / (dataCount xs : α)
+    if nan v then none else some v
+
+/-- `armodel_residual` with the data mean computed by the model -/
+def pyResidualD (nan : α → Bool) (params : List (Option α)) (inputs : List (Option α))
+    (meanArg : Option (Option α)) (iniArg : Option (Option α)) : Except Err (List α) :=
+  pyResidual nan params inputs (dataMean nan inputs) meanArg iniArg
 
 end
 
